@@ -28,6 +28,7 @@ def run(tier, seed, t0, prefix="c06.", pid=ID, manifest_rule=None):
               "all_pairs_comparisons": (m.bins.get("all_pairs_comparisons", 0), 0.3 * m.evaluations), "pairs_gated_out": (m.bins.get("pairs_gated_out", 0), 100),
               "family_cluster": (m.bins.get("family:cluster", 0), 20), "family_nucleus_in_cell": (m.bins.get("family:nucleus_in_cell", 0), 10), "family_cell_in_ecm": (m.bins.get("family:cell_in_ecm", 0), 10), "family_row_touching": (m.bins.get("family:row_touching", 0), 10),
               "tissues_with_unused_slots_before_last_cell": (m.bins.get("tissues_with_unused_slots_before_last_cell", 0), 0.1 * m.evaluations),
+              "tissues_produced_by_the_divider": (m.bins.get("tissues_produced_by_divisions", 0), 0.05 * m.evaluations),
               "second_evaluation_with_same_model_object": (m.bins.get("model_object_reused", 0), 0.5 * m.evaluations)}
     return R.finish(pid, tier, seed, m,
                     "tissue = family (cluster / nucleus in cell / cell in ECM / touching row) x 2-8 cells x classes x sizes x mesh families x (l_min, cut-offs) generic or powers "
